@@ -158,6 +158,9 @@ fn templates() -> Vec<String> {
         // line-framed and run with administrator authority (HTTP and WebSocket sessions can send such a value)
         "set note a\nreplicate db $$secret -1 pwned", "set note a\r\nreplicate db $$secret -1 pwned", "set-safe note 0 a\nreplicate-remove db $$only1",
         "set note a\nrp 1 replicate db $$token -1 t", "set note a\nreplicate-increment db $$user_x 1", "set note a\nresolve 1 db $$secret 5 x",
+        // a $$ key decorated with white space other than the separator: the client-facing guard and the parser of the
+        // forwarded message must agree on what the key is
+        "remove \t$$secret", "remove $$secret\t", "remove \u{a0}$$secret", "set \t$$secret v", "increment \t$$secret", "remove \t$$only1", "remove \r$$secret", "set-safe \t$$secret 9 v",
         "keys $conflicts", "get {CK}", "get-safe {CK}", "watch {CK}", "set {CK} x", "remove {CK}", "watch $conflicts", "get $connections", "set a 1", "get a", "watch secret", "set secret s2", "remove secret",
     ] {
         t.push(s.to_string());
@@ -203,6 +206,12 @@ fn run_pair_on(kind: Kind, with_conflict: bool, secondary: bool, lines: &[String
     let a = build(0, kind, with_conflict);
     let b = build(1, kind, with_conflict);
     let mut links = vec![];
+    // for secondary twins: a primary with the same contents stands at the other end of the link and executes, with the
+    // authority every cluster link has, each line the secondary hands to it
+    let upstream: Vec<Node> = if secondary { vec![build(0, kind, with_conflict), build(1, kind, with_conflict)] } else { vec![] };
+    let upstream_before: Vec<BTreeMap<String, String>> = upstream.iter().map(|n| secure_dump(n)).collect();
+    let mut upstream_links: Vec<Session> = upstream.iter().map(|n| { let mut l = Session::new(); l.call(&n.dbs, "auth admin pwd"); l }).collect();
+    let mut upstream_changed: Option<(String, String)> = None;
     if secondary {
         for n in [&a, &b] {
             let (tx, rx) = futures::channel::mpsc::channel::<String>(10_000);
@@ -244,6 +253,18 @@ fn run_pair_on(kind: Kind, with_conflict: bool, secondary: bool, lines: &[String
                                 forwarded_secure = Some((l_raw.clone(), m.clone()));
                             }
                             pushed.push(format!("->primary: {}", normalize(&m)));
+                            // the primary reads the link line by line
+                            for line in m.split('\n') {
+                                if line.trim().is_empty() {
+                                    continue;
+                                }
+                                let udbs = upstream[i].dbs.clone();
+                                let _ = std::panic::catch_unwind(std::panic::AssertUnwindSafe(|| upstream_links[i].call_raw(&udbs, line)));
+                                upstream_links[i].drain();
+                            }
+                            if upstream_changed.is_none() && secure_dump(&upstream[i]) != upstream_before[i] {
+                                upstream_changed = Some((l_raw.clone(), m.clone()));
+                            }
                         }
                     }
                     tr.push((l_raw.clone(), normalize(&resp_str(&r)), pushed));
@@ -289,6 +310,9 @@ fn run_pair_on(kind: Kind, with_conflict: bool, secondary: bool, lines: &[String
     if let Some((_i, l, msg)) = panicked {
         v.report(json!({"check": "twin", "problem": "panic", "word": l.split(' ').next().unwrap_or(""), "panic": msg.split(':').next().unwrap_or("")}), replay("command panicked"));
         return;
+    }
+    if let Some((l, m)) = &upstream_changed {
+        v.report(json!({"check": "twin", "problem": "secure-key-changed-on-the-primary-through-a-secondary", "word": l.split(' ').next().unwrap_or(""), "session": format!("{:?}", kind)}), replay(&format!("'{}' made the secondary send {:?}; executed by the primary it changed a $$ key there", l, m)));
     }
     if let Some((l, m)) = &forwarded_secure {
         v.report(json!({"check": "twin", "problem": "secure-key-write-forwarded-to-the-primary-by-non-admin", "word": l.split(' ').next().unwrap_or(""), "session": format!("{:?}", kind)}), replay(&format!("'{}' made the secondary send '{}' to its primary", l, m)));
